@@ -379,6 +379,14 @@ Theorem GenTie_lz_rs : forall bits a,
 Proof. exact g_lz_family_eq. Qed.
 Print Assumptions GenTie_lz_rs.
 
+(* src/special.rs: checked_next_power_of_two, next_power_of_two *)
+Theorem GenTie_special_pow2 : forall bits a,
+  0 <= bits -> bits + 7 < B -> 64 * nlimbs bits < B -> length a = nlimbsN bits -> Forall inW a ->
+  g_checked_next_power_of_two bits (nlimbs bits) a = Bits.checked_next_power_of_two bits a /\
+  g_next_power_of_two bits (nlimbs bits) a = Bits.next_power_of_two bits a.
+Proof. exact g_next_pow2_eq. Qed.
+Print Assumptions GenTie_special_pow2.
+
 (* the premises are satisfiable and the generated code computes: reciprocal(2^63) = 2^64 - 1 *)
 Example GenTie_nonvacuous :
   g_reciprocal_mg10 (2 ^ 63) = Val (2 ^ 64 - 1) /\ g_mask 65 = Val 1 /\ g_nlimbs 65 = Val 2 /\
@@ -400,6 +408,8 @@ Example GenTie_nonvacuous :
   g_arithmetic_shr 65 2 [0; 1] 64 = Val [2 ^ 64 - 1; 1] /\
   g_bitxor 65 2 [5; 1] [3; 1] = Val [6; 0] /\
   g_leading_zeros 65 2 [5; 0] = Val 62 /\
+  g_checked_next_power_of_two 65 2 [5; 0] = Val (Some [8; 0]) /\
+  g_next_power_of_two 65 2 [1; 1] = Panic /\
   g_byte_len 65 2 [0; 1] = Val 9 /\
   g_square_redc 2 [5; 0] [9; 1] 0x71c71c71c71c71c7 = Val [14119730031728298775; 0] /\
   g_div_nxm_normalized [0x1656178c14142000; 0x821415dfe9e81612; 0x1616561616161616; 0x96000016820016]
